@@ -115,7 +115,9 @@ def read_stockholm(f, comments=None):
     gs = {}
     gr = {}
     seqs = {}
-    for line in f:
+    # use readline(), iterating over a text file disables its tell() method,
+    # which is needed to detect the format of the next alignment on the same handle
+    for line in iter(f.readline, ''):
         line = line.strip()
         if line == '' or line.startswith('# STOCKHOLM'):
             continue
